@@ -301,7 +301,7 @@ def run_check(prop, tier, seed, only_stream=None):
     judge = ensure_judge()
     findings = load_findings()
     unknown = []
-    plans.build_all([st['driver'] for st in plan.get('streams', []) if tier in st['runs'] and (not only_stream or st['name'] == only_stream)])
+    plans.build_all([d for st in plan.get('streams', []) if tier in st['runs'] and (not only_stream or st['name'] == only_stream) for d in (st['driver'], st.get('driver2')) if d])
     for st in plan.get('streams', []):
         if only_stream and st['name'] != only_stream:
             continue
